@@ -162,6 +162,37 @@ pub fn workload(prop: &str, tier: Tier, rng: &mut Rng, index: u64) -> Workload {
                 workload::strs::generate(rng, if big { 40 } else { 24 }, 10, true)
             }
         }
+        "C06" => match index % 8 {
+            // small programs for the exhaustive cycle-start sweep
+            0 | 1 => workload::gc::generate(rng, true),
+            2..=5 => workload::gc::generate(rng, false),
+            6 => workload::arr::generate(rng, 30),
+            _ => workload::strs::generate(rng, 24, 8, true),
+        },
+        "C11" => match index % 4 {
+            0 => workload::conc::generate(rng, &[workload::conc::Shape::MainLeavesEarly, workload::conc::Shape::FailingTask, workload::conc::Shape::RequestResponse], false),
+            _ => workload::status::generate(rng, true),
+        },
+        "C10" => match index % 6 {
+            // part 1: programs without tasks
+            0 => workload::strs::generate(rng, 10, 3, false),
+            1 => workload::arr::generate(rng, 12),
+            2 | 3 => workload::status::generate(rng, false),
+            // part 2: tasks communicate through channels only, main is the only one printing
+            _ => workload::conc::generate(rng, workload::conc::DETERMINATE, true),
+        },
+        "C01" => match index % 8 {
+            0 => workload::conc::generate(rng, workload::conc::ALL, false),
+            1 => workload::cap::generate(rng),
+            2 => workload::gc::generate(rng, false),
+            3 => workload::arr::generate(rng, 30),
+            4 => workload::strs::generate(rng, 24, 8, true),
+            5 => workload::status::generate(rng, true),
+            6 => workload::conc::generate(rng, workload::conc::ALL, false),
+            _ => workload::gc::generate(rng, true),
+        },
+        "C08" => workload::cap::generate(rng),
+        "C09" => workload::conc::generate(rng, workload::conc::ALL, false),
         _ => workload::arr::generate(rng, 20),
     }
 }
@@ -241,13 +272,119 @@ pub fn runs(
                 specs.push(sampled(rng, w, reference, f, "sampled"));
             }
         }
+        "C06" => {
+            let f = Flavor {
+                gc_stress: true,
+                stalls: w.has_tasks,
+                stall_main_only: false,
+                selfcheck_every: 1,
+            };
+            let small = reference.steps <= 2_600 && !w.has_tasks && w.family == "gc";
+            if small {
+                // exhaustive over the start point of a single cycle, crossed with four increment
+                // shapes (the last one is the production shape: everything in one call)
+                for t in 0..reference.steps {
+                    for (mark, sweep) in [(1, 1), (u32::MAX, 1), (1, u32::MAX), (u32::MAX, u32::MAX)] {
+                        specs.push(fixed(
+                            base(
+                                Budget::Const(neutral),
+                                GcTemplate::SingleCycle {
+                                    start_at: t,
+                                    mark,
+                                    sweep,
+                                },
+                            ),
+                            reference,
+                            "single-cycle-at-every-start-point",
+                            1,
+                        ));
+                    }
+                }
+                exhaustive.push(format!(
+                    "single collection cycle at every start point of the {} instructions x 4 increment shapes",
+                    reference.steps
+                ));
+            }
+            specs.push(fixed(base(Budget::Const(1), GcTemplate::OneInc), reference, "one-increment-per-instruction", 1));
+            specs.push(fixed(base(Budget::Const(neutral), GcTemplate::FullEveryStep), reference, "full-cycle-every-instruction", 1));
+            specs.push(fixed(base(Budget::Const(100), GcTemplate::Default), reference, "production-pacing", 1));
+            for _ in 0..n_sampled {
+                specs.push(sampled(rng, w, reference, f, "sampled"));
+            }
+        }
+        "C10" => {
+            // the collector runs under its production heuristic in every C10 run, so that a
+            // difference is attributable to slicing and host-call delay alone
+            let f = Flavor {
+                gc_stress: false,
+                stalls: true,
+                // for programs with tasks only main's host calls are delayed: that is the delay
+                // slicing itself imposes; stalls inside the other tasks belong to C09
+                stall_main_only: w.has_tasks,
+                selfcheck_every: 0,
+            };
+            if !w.has_tasks && reference.steps <= 400 {
+                for k in 1..=64u32 {
+                    specs.push(fixed(base(Budget::Const(k), GcTemplate::Default), reference, "every-constant-budget", 0));
+                }
+                exhaustive.push("constant budgets 1..=64".to_string());
+                let t = reference.steps.max(1);
+                let stride = (t / 24).max(1);
+                let mut n = 0;
+                let mut at = 1;
+                while at < t {
+                    for k1 in [1u32, 2, 3, 7, 64] {
+                        for k2 in [1u32, 5, u32::MAX] {
+                            specs.push(fixed(
+                                base(Budget::TwoPhase { k1, at, k2 }, GcTemplate::Default),
+                                reference,
+                                "two-phase-budget-grid",
+                                0,
+                            ));
+                            n += 1;
+                        }
+                    }
+                    at += stride;
+                }
+                exhaustive.push(format!("two-phase budget grid ({n} points: k1 in {{1,2,3,7,64}} x switch point every {stride} instructions x k2 in {{1,5,MAX}})"));
+            } else {
+                for k in [1u32, 2, 3, 5, 7, 64, 100] {
+                    specs.push(fixed(base(Budget::Const(k), GcTemplate::Default), reference, "constant-budget", 0));
+                }
+            }
+            for _ in 0..n_sampled {
+                specs.push(sampled(rng, w, reference, f, "sampled"));
+            }
+        }
+        "C11" => {
+            let f = Flavor {
+                gc_stress: true,
+                stalls: true,
+                stall_main_only: false,
+                selfcheck_every: 4,
+            };
+            for k in [1u32, 2, 3, 64] {
+                let mut sp = fixed(base(Budget::Const(k), GcTemplate::Default), reference, "constant-budget", 0);
+                sp.opts.post_done_calls = 3;
+                specs.push(sp);
+            }
+            for _ in 0..n_sampled {
+                let mut sp = sampled(rng, w, reference, f, "sampled");
+                // keep calling after completion / failure: the report must not change
+                sp.opts.post_done_calls = *rng.pick(&[0, 1, 3]);
+                specs.push(sp);
+            }
+        }
         _ => {
+            // C01, C08, C09: every fault kind at once
             let f = Flavor {
                 gc_stress: true,
                 stalls: true,
                 stall_main_only: false,
                 selfcheck_every: 1,
             };
+            specs.push(fixed(base(Budget::Const(1), GcTemplate::OneInc), reference, "one-increment-per-instruction", 1));
+            specs.push(fixed(base(Budget::Const(3), GcTemplate::FullEveryStep), reference, "full-cycle-every-instruction", 1));
             for _ in 0..n_sampled {
                 specs.push(sampled(rng, w, reference, f, "sampled"));
             }
@@ -265,6 +402,12 @@ pub fn n_cells(prop: &str, tier: Tier) -> u64 {
         ("C17", Tier::Thorough) => 2400,
         ("C26", Tier::Quick) => 400,
         ("C26", Tier::Thorough) => 6000,
+        ("C01", Tier::Quick) => 192 + 320,
+        ("C01", Tier::Thorough) => 192 * 4 + 4000,
+        ("C10", Tier::Quick) => 192 + 300,
+        ("C10", Tier::Thorough) => 192 * 4 + 3000,
+        ("C06", Tier::Quick) => 96,
+        ("C06", Tier::Thorough) => 1200,
         (_, Tier::Quick) => 200,
         (_, Tier::Thorough) => 3000,
     }
@@ -300,8 +443,25 @@ impl ExtraInputs {
     }
 }
 
-pub fn prepare_inputs(_prop: &str, _tier: Tier) -> ExtraInputs {
-    ExtraInputs::default()
+pub fn prepare_inputs(prop: &str, tier: Tier) -> ExtraInputs {
+    if prop != "C01" && prop != "C10" {
+        return ExtraInputs::default();
+    }
+    // the repository's own programs, from the current tree; in the thorough tier each of them is
+    // given to four cells (four different schedule batches)
+    let programs = crate::corpus::extract_all();
+    let dir = std::path::Path::new("/verif/sim/target/corpus");
+    let _ = std::fs::create_dir_all(dir);
+    let copies = if tier == Tier::Thorough { 4 } else { 1 };
+    let mut per_cell = vec![];
+    for _ in 0..copies {
+        for (i, c) in programs.iter().enumerate() {
+            let path = dir.join(format!("{i}.json"));
+            let _ = std::fs::write(&path, serde_json::to_string(c).unwrap());
+            per_cell.push(vec!["--corpus".to_string(), path.to_string_lossy().to_string()]);
+        }
+    }
+    ExtraInputs { per_cell }
 }
 
 /// reach probes that must fire at least once in a check, or the check cannot claim to have
@@ -316,6 +476,36 @@ pub fn required_probes(prop: &str, _tier: Tier) -> &'static [&'static str] {
             "gc_objects_freed",
             "f4_forced_cycle_start",
         ],
+        "C06" => &[
+            "probe_heap_write_during_marking",
+            "probe_array_pop_during_marking",
+            "probe_barrier_greyed_child",
+            "probe_rescan_found_white_root",
+            "probe_alloc_during_marking",
+            "probe_alloc_during_sweeping",
+            "probe_cycle_start_in_string_op",
+            "gc_objects_freed",
+        ],
+        "C08" => &["ev_spawn", "f2_defer", "gc_objects_freed", "probe_two_tasks_parked"],
+        "C09" => &[
+            "ev_spawn",
+            "f2_defer",
+            "probe_blocked_read",
+            "probe_two_tasks_parked",
+            "f11_task_failed",
+            "probe_main_done_with_task_alive",
+            "gc_objects_freed",
+        ],
+        "C10" => &["f1_budget_zero", "f2_defer", "probe_slice_boundary_in_string_op"],
+        "C11" => &[
+            "f2_defer",
+            "f11_task_failed",
+            "probe_main_done_with_task_alive",
+            "probe_main_done_with_task_parked",
+            "probe_main_done_with_task_failed",
+            "probe_two_tasks_parked",
+        ],
+        "C01" => &["ev_spawn", "f2_defer", "f4_forced_cycle_start", "gc_objects_freed", "f11_task_failed"],
         "C17" => &[
             "probe_cycle_start_in_string_op",
             "probe_slice_boundary_in_string_op",
